@@ -1,5 +1,6 @@
 import CssVerif.Lemmas.Normalize
-import CssVerif.Lemmas.SheetSpecSheet
+import CssVerif.Lemmas.SheetSpecNoC
+import CssVerif.Lemmas.SheetSpecEx
 import CssVerif.Gen.C04Margins
 /-!
 # C02 — the parsed DOM is the same for every way of writing a well-formed sheet
@@ -112,5 +113,71 @@ theorem href_recovered (r : SHref) (h : r.WF) :
       | .str .. => stringValue r.tok.val
       | .url .. => uriValue r.tok.val) = r.value :=
   href_value r h
+
+/-! ## T2.1 locality -/
+
+/-- **T2.1 locality.**  A well-formed stretch of rules is parsed on its own: whatever follows it (`x` is ANY token
+list, also garbage or a truncated construct) and whatever state the dispatcher is in, the rules built from the
+stretch are the rules of the stretch, appended in order, and the dispatcher resumes after exactly its tokens with
+the namespace context unchanged. -/
+theorem statements_local (O : Oracle) (M : List Cps) (hO : AtFaithful O) (rs : SRules) (x : List Tok) (st : SheetSt)
+    (h : rs.WF O M st.nsmap false) :
+    ∃ st', sheetLoop O M st (rs.toks ++ x) = sheetLoop O M st' x ∧
+      st'.rules = st.rules ++ rs.parsed O st.nsmap ∧ st'.nsmap = st.nsmap :=
+  sheetLoop_srules O M hO rs x st h
+
+/-- the same inside `@media` (any nesting depth): the block parser builds the rules of the stretch and goes on
+behind it -/
+theorem media_block_local (O : Oracle) (M : List Cps) (hO : AtFaithful O) (ns : List (Cps × Cps)) (rs : SRules)
+    (h : rs.WF O M ns true) (f : Nat) (acc : List Rule) (x : List Tok) (hf : rs.toks.length < f) :
+    parseLoop (mediaStep O ns (fun l => mediaRule O ns f l)) acc (rs.toks ++ x) =
+      parseLoop (mediaStep O ns (fun l => mediaRule O ns f l)) (acc ++ rs.parsed O ns) x :=
+  mediaLoop_rules O M hO ns rs h f acc x hf
+
+/-! ## T2.3 comments off
+
+`validate_irrelevant` has no counterpart here: the structure kernel has no `validate` parameter at all (the code
+only logs and annotates when validating), so that clause is decided on the implementation by the oracle
+(tools/harness/c02.py, `validate-off`). -/
+
+/-- the tokenizer with `doComments=False` on the text of `s` gives the tokens of the sheet without comments -/
+theorem comments_off_tokens (s : SSheet) : strip (render s) = render s.noC := strip_render s
+
+/-- **T2.3 comments_off.**  Parsing with comment parsing disabled (the COMMENT tokens of `render s` dropped) gives
+the abstract sheet without its comments: comment rules and comment items are gone, everything else is as before.
+The hypothesis is the well-formedness of the comment-free spelling (the sub-parsers accept the selectors / values
+as they are written without their comments). -/
+theorem comments_off (O : Oracle) (M : List Cps) (hO : AtFaithful O) (s : SSheet) (h : s.noC.WF O M) :
+    projSheet O M (parseSheet O M (strip (render s))) = eraseCRules s.erase := by
+  rw [strip_render, parse_render O M hO s.noC h, SSheet.noC_erase]
+
+/-! ## non-vacuity
+
+`@charset "utf-8"; @IMPORT UrL( 'a.css') print ; @namespace p "urn:x"; a , /*c*/ b { COLOR /*c*/ : red ! IMPORTANT ;
+; /*k*/ top : 0 1 }  @x y ; @Media print /*c*/ { a,b{…} /*in*/ } @font-face { … } @page cover/*m*/:first { top : 0 1 ;
+@Top-left /*c*/ { top : 0 1 } }` -/
+
+/-- the hypotheses of `parse_render` are satisfiable: a sheet with every rule kind, gaps with comments, upper case
+and simple escapes, both quote styles -/
+example : Ex2.sheet.WF Ex2.O Ex2.M := Ex2.sheet_wf
+example : AtFaithful Ex2.O := withAtRules_faithful _
+
+/-- hence the theorem applies to it -/
+example : projSheet Ex2.O Ex2.M (parseSheet Ex2.O Ex2.M (render Ex2.sheet)) = Ex2.sheet.erase :=
+  parse_render _ _ (withAtRules_faithful _) _ Ex2.sheet_wf
+
+/-- a test (evaluation of the model on the rendered example), not a theorem: the parse has 8 rules -/
+example : (parseSheet Ex2.O Ex2.M (render Ex2.sheet)).length = 8 := by decide +kernel
+
+/-! ## known findings, shown on the model -/
+
+/-- C02-page-pseudo-case: the pseudo-page ident is kept as written (`csspagerule.py:170-186` compares it with
+`'first'` … without normalising), so `@page :FIRST` and `@page :first` do not give the same DOM -/
+example : pageSelector [colonTok, identTok (cps "FIRST")] ≠ pageSelector [colonTok, identTok (cps "first")] := by
+  decide +kernel
+
+/-- C02-margin-box-space-dropped: the declarations of a margin box are parsed without their white space
+(`marginrule.py:150-172`), so the value that reaches the value parser is not the value that was written -/
+example : Ex2.dTop.eraseSq ≠ Ex2.dTop.erase := by decide
 
 end CssVerif.C02
